@@ -202,6 +202,8 @@ def run(oc, tier, seed):
     for text, res in zip(texts, results):
         ok = c01.check_page(eng, text, res, None, oc, "c08")       # correspondence on the exported tree
         bad, trig, what = classify(res)
+        if not ok:
+            trig = None      # a known finding is one the listener model of the unchanged code reproduces on this very tree
         oc.count("status_" + res["status"])
         if res["nerrors"]:
             oc.nontriv(text)
